@@ -46,22 +46,23 @@ CLAIMED = {
    note=TB + " Grammar-level violations are decided by pest (the model only knows that a file fails to parse); constant ranges by the Literal model."),
  "C10": dict(engine="lean+facts+cli", technique="Lean 4 proof (converse lemmas for the local passes) + differential correspondence on a valid stream with permutation / redistribution",
    text="Partial. Lean 4: the duplicate-parameter pass accepts whenever names are distinct; checkFunc_iff: the interface verifier's per-method decision is exactly the documented rule set (it refuses nothing the documentation allows); "
-        "the backend's fatal paths cannot fire when counts fit the counts word. Acceptance of whole file sets (graph passes on acyclic inputs, symbol lookup across the include closure) is tied, not proved: valid generated file sets over the full grammar "
+        "the backend's fatal paths cannot fire when counts fit the counts word; the DFS behind every cycle pass fails ONLY on a real cycle and the model's fuel is never the reason (toposort_err_cycle, toposort_ok_iff_acyclic), so Cycles::run_pass accepts every acyclic struct/interface graph (cyclesPass_complete, cyclesPass_cycle_iff). Acceptance of whole file sets (symbol lookup across the include closure, the composition of all passes) is tied, not proved: valid generated file sets over the full grammar "
         "are run through the real binary for 5-6 backends under random flag sets, as generated, with declarations permuted, and with all declarations merged into the main file; every variant must exit 0 with output, and the model must agree.",
-   note=TB + " Completeness of the graph passes is sampled, not proved."),
+   note=TB + " Completeness of the composition of all passes on whole file sets is sampled, not proved."),
  "C11": dict(engine="lean+real compilers", technique="Lean 4 for the two pieces that are logic (definition-before-use order, C++ base list); everything else CHECKED by gcc/clang/g++/clang++/rustc/javac on the real output (not a proof)",
    text="Partial by construction: the static semantics of C, C++, Rust and Java are outside any model here. Lean 4: the C++ interface class names exactly its direct base for every hierarchy depth (after the fix); definition-before-use is refuted (the front end accepts any declaration order, emission follows source order) and holds on dependency-ordered input. "
         "Checked, not proved: generated accepted file sets are emitted for C, C++ and Rust (stub and skeleton, typed and untyped) and compiled with gcc/g++ and clang/clang++ under upstream's flags together with conforming user units that include stub and skeleton of every file (generated headers including the generated headers of their includes), Rust through rustc in upstream's crate layout, Java (supported subset) through javac against the stand-in API. Six classes of genuine defects are known findings with witnesses; one was repaired (C++ base list at depth >= 3).",
    note="Trusted: the target compilers as the definition of 'compiles warning-clean'; the bench's generated user units (a mistake there shows up as a compile error and would be reported). " + TB),
  "C12": dict(engine="lean+facts+cli", technique="Lean 4 proof (invariant over the depth-first loader, DFS acyclicity theorem) + differential correspondence on random include graphs with file-system oracle tables",
    text="Lean 4: resolve returns the first match in search order for bare names (with the none-iff characterisation) and resolves paths with a directory part relative to the includer only; "
-        "loadAll_ok: whenever the loader succeeds the resolved include graph it built is acyclic (for every hash iteration order), no file was loaded twice and the main file is loaded; a detected cycle is never dropped. "
+        "loadAll_ok: whenever the loader succeeds the resolved include graph it built is acyclic (for every hash iteration order), no file was loaded twice and the main file is loaded; a detected cycle is never dropped. 
+        "The cycle test flags an include edge exactly when it closes a cycle, independent of table order (hasCycle_iff, include_cycle_flag_iff, hasCycle_order_independent). "
         "Tie: random include graphs over up to 5 directories (same name in several directories, bare/./../nested spellings, self-includes and cycles of any length, unresolvable names, symlinked directories, permuted and re-spelled -I lists) "
         "materialised on disk; the model's two file-system oracle tables are read from the real tree; verdict, load set and origin of every visible declaration of the real pipeline are compared with the model and with an independent evaluation of the resolution rule.",
    note=TB + " canonicalize()/exists() are modelled by oracle tables read from the real file system; termination of the model's loader is by fuel |files|+2 (sufficiency of that fuel is checked by correspondence, not proved); include strings that are absolute paths are not modelled."),
  "C13": dict(engine="lean+facts+cli", technique="Lean 4 proof (order-independence of the struct verifier over dependency-first orders; DFS theorem for every iteration order) + repeated/relocated/re-spelled runs of the real binary",
    text="Lean 4: structVerifier_order_independent / _verdict_independent: the struct verifier's verdict and computed sizes do not depend on which dependency-first order the hash-table iteration produced; "
-        "toposort_ok_acyclic holds for every list (iteration) order; the model's compile takes file identities and oracle tables only, so no path reaches its result. "
+        "toposort succeeds iff the graph is acyclic, hence the verdict of every cycle pass is the same for every iteration order and insertion history (toposort_ok_iff_acyclic, hasCycle_order_independent); the model's compile takes file identities and oracle tables only, so no path reaches its result. "
         "Tie: every accepted generated file set (plus graphs sized around hash-table growth boundaries) is compiled 8 times per backend in fresh processes (fresh SipHash keys): relative from the root (3x), absolute from /, from a relocated copy, "
         "with redundant components, through a symlink, relative from the parent; names and bytes of all outputs are compared; probe facts at two locations are compared with each other and with the model.",
    note=TB + " Determinism of emission order inside the code generators (iteration over source-ordered node lists) is observed by byte comparison, not proved."),
